@@ -62,8 +62,9 @@ def bounds(tier):
                     symbolic_perturbations="core4 extents for c*#0, xi=(1,..,1)/1000 for c*#1, every config")
     return dict(common, pool=M.TAGS[:8], max_subset=4, cstar_variants=[0, 1, 2],
                 configs="3 NumSys x rref_equil x rref_preserv x new_eq_params = 24",
-                direct_zero="full extents, every c*, every config", direct_perturbations="core extents, every c*",
-                symbolic_zero="full extents, every c*, every config", symbolic_perturbations="full extents, every c*, every config")
+                direct_zero="full extents, every c*, every config", direct_perturbations="core4 extents, every c*, every config",
+                symbolic_zero="full extents, every c*, every config", symbolic_perturbations="core extents, every c*, every config",
+                four_reaction_systems="explored with the quick-tier plan (c* #0,#1; 18 configs; direct zero test on full extents for c*#0)")
 
 
 def chunks(tier):
@@ -75,14 +76,14 @@ def chunks(tier):
     return out
 
 
-def configs(tier="thorough"):
+def configs(tier="thorough", nr=1):
     out = []
     for ns in NUMSYS:
         for re_ in (False, True):
             for rp in (False, True):
                 for nep in (True, False):
-                    if tier == "quick" and not nep and re_ != rp:
-                        continue  # deviation bound of the quick tier
+                    if light(tier, nr) and not nep and re_ != rp:
+                        continue  # deviation bound of the light plan
                     out.append((ns, re_, rp, nep))
     return out
 
@@ -112,10 +113,15 @@ def extents_core4(nr, scales):
     return [e for e in extents(nr, scales) if e in keep or not any(e[0])]
 
 
+def light(tier, nr):
+    """the light plan: the whole quick tier, and the four-reaction systems of the thorough tier"""
+    return tier == "quick" or nr >= 4
+
+
 def plan(tier, nr, variant, cfg, scales):
     """which extents get which treatment: dict of sets (direct_zero, direct_pert, sym_zero, sym_pert)"""
     full, core, core4 = extents(nr, scales), extents_core(nr, scales), extents_core4(nr, scales)
-    if tier == "quick":
+    if light(tier, nr):
         if cfg[3]:
             dz = full if variant == 0 else core
         else:
@@ -123,7 +129,7 @@ def plan(tier, nr, variant, cfg, scales):
         dp = [((1,) * nr, "milli")] if variant == 0 and cfg[3] else []
         sp_ = core4 if variant == 0 else [((1,) * nr, "milli")]
         return dict(direct_zero=set(dz), direct_pert=set(dp), sym_zero=set(full), sym_pert=set(sp_), stored_k_modes=("direct", "symbolic") if variant == 0 else ("direct",))
-    return dict(direct_zero=set(full), direct_pert=set(core), sym_zero=set(full), sym_pert=set(full), stored_k_modes=("direct", "symbolic"))
+    return dict(direct_zero=set(full), direct_pert=set(core4), sym_zero=set(full), sym_pert=set(core), stored_k_modes=("direct", "symbolic"))
 
 
 # --------------------------------------------------------------------------------------------- helpers
@@ -460,7 +466,7 @@ def run_chunk(chunk, tier):
         res.symbols["rxn:" + M.TAGS[i]] += 1
     res.symbols["order:" + order] += 1
     res.symbols["nr:%d" % nr] += 1
-    for variant in b["cstar_variants"]:
+    for variant in (b["cstar_variants"] if not light(tier, nr) else [0, 1]):
         ctx = Ctx(idx, order, variant)
         res.symbols["cstar:%d" % variant] += 1
         res.extra["max_species"] = max(res.extra.get("max_species", 0), ctx.ns)
@@ -479,7 +485,7 @@ def run_chunk(chunk, tier):
             res.symbols["scale:" + scale] += 1
             res.symbols["init:" + ("all-positive" if min(init) > 0 else "has-nonpositive-component")] += 1
             check_conservation(res, ctx, xi, scale)
-        for cfg in configs(tier):
+        for cfg in configs(tier, nr):
             pl = plan(tier, nr, variant, cfg, b["scales"])
             res.symbols["NumSys:" + cfg[0]] += 1
             res.symbols["rref_equil:%s" % cfg[1]] += 1
@@ -504,7 +510,7 @@ def run_chunk(chunk, tier):
             if ctx.K[kinv] == 1:
                 continue
             ctx2 = Ctx(idx, order, variant, kinv=kinv)
-            for cfg in configs(tier):
+            for cfg in configs(tier, nr):
                 if cfg[3]:
                     continue
                 for tr in TRANSFORMS[cfg[0]]:
